@@ -210,6 +210,52 @@ func c15(c *ev.Ctx) {
 			}
 		}
 	}
+	// the host gives a variable a new value between runs (SetVariable): only that variable
+	// changes - not a variable that was assigned from it, not the literal it was assigned from
+	for vi, tc := range []struct {
+		script string
+		sets   []object.Object
+		wants  []string
+	}{
+		{`if (n > 70000) { n = 70000; } seen = n; return [n, seen, 70000];`,
+			[]object.Object{&object.Integer{Value: 80000}, &object.Integer{Value: 5}, &object.Integer{Value: 90000}, &object.Integer{Value: 70000}},
+			[]string{"ARRAY:[70000, 70000, 70000]", "ARRAY:[5, 5, 70000]", "ARRAY:[70000, 70000, 70000]", "ARRAY:[70000, 70000, 70000]"}},
+		{`if (first) { first = false; keep = n; lit = 1.5; n = lit; } return [n, keep, lit, 1.5];`,
+			[]object.Object{&object.Float{Value: 9.5}, &object.Float{Value: 2.5}, &object.Float{Value: 3.5}},
+			[]string{"ARRAY:[1.5, 9.5, 1.5, 1.5]", "ARRAY:[2.5, 9.5, 1.5, 1.5]", "ARRAY:[3.5, 9.5, 1.5, 1.5]"}},
+		{`arr = [n, n]; h = {"k": n}; copy = n; return [arr, h, copy];`,
+			[]object.Object{&object.Integer{Value: 100000}, &object.Integer{Value: 7}},
+			[]string{"ARRAY:[[100000, 100000], {k: 100000}, 100000]", "ARRAY:[[7, 7], {k: 7}, 7]"}},
+	} {
+		id := fmt.Sprintf("host-updates-between-runs/%d", vi)
+		if !c.Want(id) {
+			continue
+		}
+		for _, noOpt := range []bool{false, true} {
+			evr, err := eng.New(tc.script, eng.Options{NoOptimize: noOpt, ObjVars: map[string]object.Object{"first": &object.Boolean{Value: true}}})
+			c.Case(id+fmt.Sprint(noOpt), true)
+			if err != nil {
+				continue
+			}
+			var keptArr, keptCopy string
+			for step, v := range tc.sets {
+				evr.E.SetVariable("n", v)
+				got := evr.Exec(nil).Desc()
+				if got != tc.wants[step] {
+					c.Violation(id, "a value set by the host changes other variables or a literal", map[string]interface{}{"summary": fmt.Sprintf("%s (noopt=%v): after SetVariable(n, %s) at step %d the script returns %s, expected %s", tc.script, noOpt, v.Inspect(), step+1, got, tc.wants[step]), "script": tc.script})
+					break
+				}
+				if vi == 2 {
+					// what the previous run left in arr / copy must not follow the new n
+					if step > 0 && (keptArr != "ARRAY:[100000, 100000]" || keptCopy != "INTEGER:100000") {
+						c.Violation(id, "variables left by an earlier run follow a later SetVariable", map[string]interface{}{"summary": fmt.Sprintf("%s: arr / copy of the first run read %s / %s after SetVariable(n, 7)", tc.script, keptArr, keptCopy), "script": tc.script})
+					}
+					evr.E.SetVariable("n", &object.Integer{Value: 7})
+					keptArr, keptCopy = evr.Var("arr"), evr.Var("copy")
+				}
+			}
+		}
+	}
 	// fixed clause-by-clause regressions
 	fixed := []struct{ name, script, want string }{
 		{"alias-after-increment", `a = 1; b = a; a++; return [a, b];`, "ARRAY:[2, 1]"},
